@@ -223,11 +223,13 @@ class WildGen:
         # parameter names must be distinct
         if len({p.name for p in out}) != len(out):
             out = [S.TParam(p.name + '_%d' % i, p.insts) for i, p in enumerate(out)]
-        for p in out:
-            # a parameter without list can be bound by a typedef later: add_typedefs picks plain
-            # concrete types for parameters that are used as a scope
-            self.scoped_ok[p.name] = p.insts is None or all(not t.args for t in p.insts)
         return tuple(out)
+
+    @staticmethod
+    def _scoped_ok_of(tparams):
+        # a parameter without list can be bound by a typedef later: add_typedefs picks plain
+        # concrete types for parameters that are used as a scope
+        return {p.name: (p.insts is None or all(not t.args for t in p.insts)) for p in (tparams or ())}
 
     def enum(self):
         kw = self.r.choice(['enum', 'enum class', 'enum struct'])
@@ -252,8 +254,10 @@ class WildGen:
         tmpl = self.template() if (self.f['templates'] and r.random() < self.f.get('class_template_p', 0.3)) else None
         virt = r.random() < 0.3
         base = None
-        saved = (list(self.scope_params), self.in_class)
+        saved = (list(self.scope_params), self.in_class, dict(self.scoped_ok))
         self.scope_params = [p.name for p in (tmpl or ())]
+        self.scoped_ok = self._scoped_ok_of(tmpl)
+        class_scoped_ok = dict(self.scoped_ok)
         self.in_class = self.f['this_in_base']   # D38: `This` inside a templated base is not replaced
         if self.f['bases'] and r.random() < 0.35:
             if r.random() < 0.4 and self.f['templated_types']:
@@ -281,6 +285,8 @@ class WildGen:
                 taken = set(class_params)
                 mt = tuple(S.TParam(p.name if p.name not in taken else p.name + 'm', p.insts) for p in mt)
                 self.scope_params = class_params + [p.name for p in mt]
+                self.scoped_ok = dict(class_scoped_ok)
+                self.scoped_ok.update(self._scoped_ok_of(mt))
             if k == 'ctor':
                 members.append(S.Ctor(name, self.args(), mt))
             elif k == 'method':
@@ -299,7 +305,8 @@ class WildGen:
             elif k == 'enum':
                 members.append(self.enum())
             self.scope_params = class_params
-        self.scope_params, self.in_class = saved
+            self.scoped_ok = dict(class_scoped_ok)
+        self.scope_params, self.in_class, self.scoped_ok = saved
         return S.Class(name, tuple(members), tmpl, virt, base)
 
     def item(self, depth):
@@ -322,9 +329,12 @@ class WildGen:
             tmpl = self.template(plain_insts=not self.f['func_templated_inst']) if (
                 self.f['templates'] and r.random() < self.f.get('class_template_p', 0.3)) else None
             saved = list(self.scope_params)
+            saved_ok = dict(self.scoped_ok)
             self.scope_params = [p.name for p in (tmpl or ())]
+            self.scoped_ok = self._scoped_ok_of(tmpl)
             fn = S.Func(self.member_name(r.random() < 0.3, 'static'), self.ret(), self.args(), tmpl)
             self.scope_params = saved
+            self.scoped_ok = saved_ok
             return fn
         if k == 'enum':
             return self.enum()
